@@ -23,6 +23,9 @@ RULE = ("complete enumeration: 12 base grids (Cartesian 1-3d x periodicity masks
         "spherical grids with inner radius > 0 and fine slicing, narrow / flat / shifted / dz != dr cylinders) x modes {0,1,2,3,8} "
         "x width {not given, 0.5, 0.0} x refine on/off x threshold rule {0.5, extrema, mean, otsu}, minimal_radius drawn from {default, 0, -1, -inf}; "
         "+ image types (int64, uint8 with grey levels 10..250, float32 data) x every grid x modes {0,2} x width {not given, 0.5} x refine on/off x {extrema, mean}; "
+        "+ images whose components are not resolvable spheres: 16 grids of every family with isotropic and strongly anisotropic cells "
+        "(spacing 10:1 in both orders, dr >> dz and dz >> dr) x {single cell, two cells along each axis} x {alone, next to an ordinary "
+        "cluster} x modes {0,2,3} x width {not given, 0.5, 0.0} x refine on/off, threshold rule drawn; "
         "+ images without droplets x every grid x modes {0,2} x width x refine; + num_processes in {2, 'auto'} with refinement on five grids; "
         "non-trivial = at least one droplet located; distinct by configuration")
 
@@ -85,11 +88,82 @@ def geometry_variants():
 IMAGES = ["float64", "int64", "uint8", "float32", "empty"]
 
 
+def cluster_grids():
+    """grids of the stream of images whose components are NOT resolvable spheres (names start with `a-`): strongly anisotropic cells
+    (spacing ratio 10:1 in both orders, dr >> dz and dz >> dr) and isotropic ones of every family"""
+    from pde import CartesianGrid, PolarSymGrid, SphericalSymGrid, CylindricalSymGrid
+    return [
+        ("a-cart1d", CartesianGrid([(0, 12)], [12], periodic=False), False),
+        ("a-cart1d-periodic-dx0.1", CartesianGrid([(0, 1.2)], [12], periodic=True), False),
+        ("a-cart2d-iso", CartesianGrid([(0, 10), (0, 10)], [10, 10], periodic=[True, False]), False),
+        ("a-cart2d-1x0.1", CartesianGrid([(0, 10), (0, 1)], [10, 10], periodic=[False, True]), False),
+        ("a-cart2d-0.1x1", CartesianGrid([(-1, 0), (5, 15)], [10, 10], periodic=[False, False]), False),
+        ("a-cart3d-iso", CartesianGrid([(0, 6)] * 3, [6, 6, 6], periodic=[False, True, False]), False),
+        ("a-cart3d-1x1x0.1", CartesianGrid([(0, 6), (0, 6), (0, 0.6)], [6, 6, 6], periodic=[False, False, True]), False),
+        ("a-cart3d-0.1x1x1", CartesianGrid([(0, 0.6), (0, 6), (0, 6)], [6, 6, 6], periodic=[True, False, False]), False),
+        ("a-polar", PolarSymGrid(8, 8), False),
+        ("a-polar-dr0.1", PolarSymGrid(1, 10), False),
+        ("a-spherical", SphericalSymGrid(6, 6), False),
+        ("a-spherical-inner", SphericalSymGrid((1, 7), 6), False),
+        ("a-cyl-iso", CylindricalSymGrid(6, (0, 10), (6, 10)), True),
+        ("a-cyl-dr1-dz0.1", CylindricalSymGrid(6, (0, 1), (6, 10)), True),
+        ("a-cyl-dr1-dz0.1-periodic", CylindricalSymGrid(6, (2, 3), (6, 10), periodic_z=True), True),
+        ("a-cyl-dr0.1-dz1", CylindricalSymGrid(0.6, (0, 10), (6, 10)), True),
+    ]
+
+
+def cluster_kinds(grid, cyl):
+    """the tiny / thin clusters of one grid: a single cell, two cells along each axis (symmetric grids: on the axis / at the origin)"""
+    if cyl:
+        return ["single", "pair-axis0", "pair-axis1"]
+    if grid.num_axes < grid.dim:
+        return ["single", "pair-axis0"]
+    return ["single"] + [f"pair-axis{k}" for k in range(grid.num_axes)]
+
+
+def cluster_image(grid, cyl, kind, companion):
+    """binary image (1 inside, 0 outside) with one tiny cluster and -- `companion` -- an ordinary cluster (its equal-volume sphere
+    contains cell centres) elsewhere; built on cell indices, so that nothing depends on rendering"""
+    from pde import ScalarField
+    data = np.zeros(grid.shape)
+    nax = grid.num_axes
+    sym = nax < grid.dim or cyl
+    base = [0] * nax if (sym and not cyl) else ([0, 2] if cyl else [2] * nax)
+    cells = [tuple(base)]
+    if kind.startswith("pair-axis"):
+        k = int(kind[-1])
+        second = list(base)
+        second[k] += 1
+        cells.append(tuple(second))
+    for c in cells:
+        data[c] = 1.0
+    if companion:
+        if cyl:
+            data[0:2, 6:9] = 1.0                 # on the axis, 2 x 3 cells
+        elif nax == 1 and not sym:
+            data[6:11] = 1.0
+        elif not sym:
+            h = list(grid.discretization)
+            f = int(np.argmin(h))                # five cells along the finest axis, the other indices far from the tiny cluster
+            idx = [grid.shape[a] - 3 for a in range(nax)]
+            sl = [slice(i, i + 1) for i in idx]
+            sl[f] = slice(0, 5)
+            data[tuple(sl)] = 1.0
+            if any(data[c] != 1.0 for c in cells):
+                raise RuntimeError("cluster image: companion overwrote the cluster")
+        else:
+            raise ValueError("symmetric grids hold one droplet")
+    return ScalarField(grid, data)
+
+
 def field_for(name, grid, k, image="float64"):
     """the image of one configuration; `image`: float64 (rendered droplets), int64 (the same, 8 grey levels, integer data),
     uint8 (grey levels 10..250: min + max is outside the range of the type, defect F36 of C18), float32, empty (all zero: nothing
     to locate)"""
     from pde import ScalarField
+    if image.startswith("cluster:"):     # cluster:<kind>:<alone|companion>
+        _, kind, comp = image.split(":")
+        return cluster_image(grid, isinstance(grid, __import__("pde").CylindricalSymGrid), kind, comp == "companion")
     f = _rendered(name, grid, k)
     if image == "float64":
         return f
@@ -224,6 +298,15 @@ def check(ctx: vlib.Ctx) -> int:
     for (name, grid, cyl) in all_grids:   # nothing to locate
         for modes, width, refine in itertools.product([0, 2], [None, 0.5], [False, True]):
             configs.append(("no-droplets", name, grid, cyl, modes, width, refine, 0.5, "empty", {}))
+    for (name, grid, cyl) in cluster_grids():   # components that are not resolvable spheres
+        for kind in cluster_kinds(grid, cyl):
+            for comp in (("alone", "companion") if (cyl or grid.num_axes == grid.dim) else ("alone",)):
+                for modes, width, refine in itertools.product([0, 2, 3], [None, 0.5, 0.0], [False, True]):
+                    if ctx.quick and refine and (modes == 3 or width == 0.0):
+                        ctx.count("skipped_in_quick_tier", "tiny clusters, refine, 3 modes or width 0.0")
+                        continue  # the slow fits of unresolvable clusters; all enumerated in the thorough tier
+                    configs.append(("tiny-clusters", name, grid, cyl, modes, width, refine, rng.choice([0.5, "extrema", "mean", "otsu"]),
+                                    f"cluster:{kind}:{comp}", {}))
     for name, nproc in (("cart2d[True, False]", 2), ("spherical", 2), ("cyl", 2), ("v-cart3d-5x6x8-per-middle", "auto"), ("v-cyl-narrow", 2)):
         grid, cyl = next((g, c) for n, g, c in all_grids if n == name)   # refinement in worker processes
         for modes, width in ((0, None), (2, 0.5)):
@@ -238,9 +321,13 @@ def check(ctx: vlib.Ctx) -> int:
         ctx.case(list(map(str, cfg)) + [image, json.dumps(opts, sort_keys=True)], nontrivial=nd > 0 or out["exc"] is not None)
         ctx.count("stream", stream)
         ctx.count("grid", name.split("[")[0])
-        ctx.count("grid_family", "cartesian" if "cart" in name else name.replace("v-", "").split("-")[0])
-        ctx.count("grid_geometry", "variant (origin / shape / spacing / inner radius / narrow)" if name.startswith("v-") else "base")
-        ctx.count("image", image)
+        ctx.count("grid_family", "cartesian" if "cart" in name else name.replace("v-", "").replace("a-", "").split("-")[0])
+        ctx.count("grid_geometry", "variant (origin / shape / spacing / inner radius / narrow)" if name.startswith("v-") else
+                  ("anisotropic 10:1 / isotropic, tiny clusters" if name.startswith("a-") else "base"))
+        ctx.count("image", image.split(":")[0])
+        if stream == "tiny-clusters":
+            ctx.count("tiny_cluster", image.split(":", 1)[1])
+            ctx.count("tiny_cluster_grid", name)
         ctx.count("minimal_radius", str(opts.get("minimal_radius", "default")))
         ctx.count("num_processes", str(opts.get("num_processes", "default (1)")))
         ctx.count("refine", "on" if refine else "off")
@@ -305,7 +392,7 @@ def replay(path: str) -> int:
     print(json.dumps(obj, indent=1)[:1500])
     inp = obj.get("input", {})
     if "grid" in inp:
-        for (name, grid, cyl) in grids():
+        for (name, grid, cyl) in grids() + cluster_grids():
             if name == inp["grid"]:
                 out = run_config(name, grid, cyl, inp["modes"], inp["width"], inp["refine"], inp["threshold"],
                                  image=inp.get("image", "float64"), opts=inp.get("options") or {})
